@@ -100,6 +100,8 @@ def slot_of(loc, args):
     t = loc[0]
     if t == "lit":
         return loc[1] % W
+    if t == "raw":      # a bare (symbolic) word used as the slot
+        return ev_expr(loc[1], args)
     if t == "map":
         kb = loc[3]
         k = ev_expr(loc[1], args) % (1 << (8 * kb))
@@ -121,6 +123,8 @@ def loc_symbolic(loc):
     t = loc[0]
     if t in ("lit", "const"):
         return False
+    if t == "raw":
+        return expr_symbolic(loc[1])
     if t == "map":
         return expr_symbolic(loc[1]) or loc_symbolic(loc[2])
     if t == "arr":
@@ -148,6 +152,8 @@ def loc_kinds(loc, out):
     t = loc[0]
     if t == "lit":
         out.add("scalar")
+    elif t == "raw":
+        out.add("symbolic-slot")
     elif t == "map":
         out.add("mapping" if loc[3] == 32 else "packed-key")
         if loc[2][0] != "lit":
@@ -187,6 +193,8 @@ def emit_loc(loc):
     t = loc[0]
     if t == "lit":
         return [("push", loc[1] % W)]
+    if t == "raw":
+        return emit_expr(loc[1])
     if t == "const":
         return [("push", slot_of(loc, ()), 32)]
     if t == "map":
@@ -227,6 +235,13 @@ class Prog:
             elif op in ("sload", "tload"):
                 items += emit_loc(s[1]) + ["SLOAD" if op == "sload" else "TLOAD", ("push", OUT + 32 * k), "MSTORE"]
                 k += 1
+            elif op == "branch_prefix":
+                # if (u != 0) goto B;  if (x == c) goto A;  stop;  A: stop;  B: <the rest>
+                # halmos explores the fall-through side first: the side B is a pending sibling while the other side
+                # branches on x == c (and records x -> c in that path's concretization)
+                la, lb = asm.fresh("A"), asm.fresh("B")
+                items += emit_expr(s[1]) + [("ref", lb), "JUMPI"] + emit_expr(s[2]) + [("push", s[3]), "EQ", ("ref", la), "JUMPI", "STOP",
+                                                                                      ("label", la), "STOP", ("label", lb)]
             elif op in ("require_eq", "require_lt"):
                 lbl = asm.fresh("ok")
                 cond = emit_expr(s[1]) + [("push", s[2]), "EQ"] if op == "require_eq" else [("push", s[2])] + emit_expr(s[1]) + ["LT"]
@@ -241,6 +256,8 @@ class Prog:
         for s in self.stmts:
             if s[0] in ("sstore", "sload", "tstore", "tload"):
                 loc_kinds(s[1], out)
+            if s[0] == "branch_prefix":
+                out.add("branch-prefix")
         return out
 
     def constants(self):
@@ -248,6 +265,8 @@ class Prog:
         for s in self.stmts:
             if s[0].startswith("require"):
                 out |= {s[2], (s[2] + 1) % W, (s[2] - 1) % W}
+            if s[0] == "branch_prefix":
+                out |= {s[3], (s[3] + 1) % W, (s[3] - 1) % W}
         return out
 
     def describe(self):
@@ -502,6 +521,19 @@ def gen_program(rng, pool):
         l2 = g.render(strip_const(loc))
         stmts.append((kind + "load", l2))
         g.note_emitted(l2)
+    if nargs >= 2 and rng.random() < 0.22:
+        # branch-history prefix: a pending sibling uses x after the first-explored side branched on x == c
+        x = ("a", 0) if rng.random() < 0.7 else ("and", ("a", 0), 0xFF)
+        lits = sorted({s[1][1] for s in stmts if s[0] in ("sstore", "sload", "tstore", "tload") and s[1][0] == "lit"} | {sl for sl, _ in g.layout})
+        c = rng.choice(lits)
+        if rng.random() < 0.5:      # x itself as the slot (solidity layout: refused; generic layout: symbolic slot)
+            kind = "t" if transient and rng.random() < 0.5 else "s"
+            extra = [(kind + "store", ("lit", c), ("c", 0x11)), (kind + "store", ("raw", x), ("c", 0x22)), (kind + "load", ("lit", c))]
+            if rng.random() < 0.5:
+                extra = [(kind + "store", ("lit", c), ("c", 0x11)), (kind + "load", ("raw", x)), (kind + "load", ("lit", c))]
+            pos = rng.randrange(len(stmts) + 1)
+            stmts = stmts[:pos] + extra + stmts[pos:]
+        stmts = [("branch_prefix", ("a", nargs - 1), x, c)] + stmts
     return Prog(stmts, nargs, meta={"layout": g.layout})
 
 
@@ -684,6 +716,12 @@ def replay_body(prog, layout, info, cfg=None):
 # symbolic storage: unconstrained initial values
 # ======================================================================================================================
 def dkeys_py(loc, args):
+    if loc[0] == "raw":
+        return ev_expr(loc[1], args), []
+    return _dkeys_py(loc, args)
+
+
+def _dkeys_py(loc, args):
     """(root slot, [(width, value) …]) — the cell structure of a location, from the layout grammar (the python rendering
     of Lean `Loc.root` / `Loc.dkeys`)"""
     t = loc[0]
@@ -965,6 +1003,23 @@ def symbolic_directed():
                   name="symbolic-storage-tload-then-sload-scalar"), [(1,)], None)]
 
 
+def branch_prefix_cases():
+    """a pending sibling path (left by a branch on the unrelated word a1) uses x = a0 as slot / key / index / value after the
+    path explored first has branched on x == c: what one path learns (x -> c) must not reach the sibling"""
+    x, u = ("a", 0), ("a", 1)
+    return [
+        Prog([("branch_prefix", u, x, 5), ("sstore", ("lit", 5), ("c", 0x11)), ("sstore", ("raw", x), ("c", 0x22)), ("sload", ("lit", 5)),
+              ("sload", ("raw", x)), ("sload", ("lit", 6))], 2, name="branch-prefix-symbolic-slot-store"),
+        Prog([("branch_prefix", u, x, 1), ("sstore", ("lit", 1), ("c", 0x11)), ("sstore", ("map", x, ("lit", 2), 32), ("c", 0x33)),
+              ("sstore", ("off", ("arr", ("lit", 1)), x, False), x), ("sload", ("raw", x)), ("sload", ("lit", 1)),
+              ("sload", ("map", ("c", 1), ("lit", 2), 32)), ("sload", ("off", ("arr", ("lit", 1)), ("c", 1), True))], 2,
+             name="branch-prefix-symbolic-slot-load-key-index-value"),
+        Prog([("branch_prefix", u, ("and", x, 0xFF), 3), ("tstore", ("lit", 3), ("c", 0x11)), ("tstore", ("raw", ("and", x, 0xFF)), ("c", 0x22)),
+              ("tload", ("lit", 3)), ("sstore", ("raw", ("addc", ("and", x, 0xFF), 1)), ("c", 0x44)), ("sload", ("lit", 4)), ("tload", ("raw", ("and", x, 0xFF)))], 2,
+             name="branch-prefix-transient-and-derived-slot"),
+    ]
+
+
 def three_ways_cases():
     out = []
     # mapping element with a struct-member offset: runtime hash + 1, 1 + runtime hash, PUSH32 (hash + 1)
@@ -1011,6 +1066,8 @@ def core_directed():
     for p in three_ways_cases():
         out.append((p, None))
     out.append((packed_concrete_case(), KEY_PACKED))
+    for p in branch_prefix_cases():
+        out.append((p, None))
     # negative deltas: constants just below a hash (table constant, locally registered hash, mapping hash)
     a2, a300, m10 = ("arr", ("lit", 2)), ("arr", ("lit", 300)), ("map", ("c", 1), ("lit", 0), 32)
     out.append((neg_const_case(a2, [1, 2, 8], "below-hash-constants-array-slot-2"), None))
